@@ -111,6 +111,22 @@ def dist2_axis(p, a):
     return norm2(p) - pa * pa
 
 
+def _comparisons_with_constants(p):
+    """(term, literal) for the literals of the path condition that compare a term with a numeric constant"""
+    out = []
+    for lit in p.pc:
+        a_ = lit
+        while z3.is_not(a_):
+            a_ = a_.arg(0)
+        if z3.is_app(a_) and a_.num_args() == 2:
+            x, y = a_.arg(0), a_.arg(1)
+            if z3.is_rational_value(x) and not z3.is_rational_value(y):
+                out.append((y, lit))
+            elif z3.is_rational_value(y) and not z3.is_rational_value(x):
+                out.append((x, lit))
+    return out
+
+
 def infinite_cylinder(chk, mod):
     chk.function(MOD, '_line_infinite_cylinder_intersection')
     pre = f'{MOD}:_line_infinite_cylinder_intersection'
@@ -151,13 +167,37 @@ def infinite_cylinder(chk, mod):
         chk.decided(f'{pre}/frame[path{i}]', not kit.frame_violations(p))
         if par:
             chk.decided(f'{pre}/parallel:interval-is-whole-line[path{i}]', left.buf.inf == -1 and right.buf.inf == 1)
-            chk.prove(f'{pre}/parallel-only-if-n||a[path{i}]', hy, q == 0)
+            # lines are taken as parallel to the axis only when they are: exactly (q == 0), or to within 1e-8 rad -- below that the
+            # direction of n x a is rounding noise in doubles and the quadratic is meaningless (DESIGN 0.4); in that band the
+            # path is off by at most 1e-8 of its length
+            # (the term the code compares is identified first -- a polynomial identity without hypotheses --, the bound is then linear;
+            # 1.0000001e-16: the code's constant is a double)
+            tol = core.tz(Fr(10000001, 10 ** 23))
+            cmps = _comparisons_with_constants(p)
+            if cmps:
+                X, lit = cmps[-1]
+                chk.prove(f'{pre}/parallel-test-is-on-|n x a|^2[path{i}]', [], X == q)
+                chk.prove(f'{pre}/parallel-only-if-n-within-1e-8-rad-of-the-axis[path{i}]', [lit, X == q], q < tol)
+            else:
+                chk.prove(f'{pre}/parallel-only-if-n-within-1e-8-rad-of-the-axis[path{i}]', hy, q < tol, timeout=120)
             chk.prove(f'{pre}/parallel:hit-iff-origin-inside[path{i}]', hy, hit.val == (c0 <= 0), timeout=60)
         else:
             chk.prove(f'{pre}/crossing-only-if-not-parallel[path{i}]', hy, q > 0)
             disc = m * m - q * c0
             s = core.sqrt_term(q * rr * rr - dotz(B, nxa) * dotz(B, nxa))
-            chk.prove(f'{pre}/crossing:hit-iff-discriminant>=0[path{i}]', hy + [q > 0], hit.val == (disc >= 0), timeout=60)
+            hv = hit.val
+            if z3.is_app(hv) and hv.decl().kind() == z3.Z3_OP_ITE and z3.is_app(hv.arg(2)) and hv.arg(2).num_args() == 2 and hv.arg(2).decl().kind() in (z3.Z3_OP_LE, z3.Z3_OP_GE):
+                # hit = where(parallel, origin inside, s2 >= 0): split by hand (the solvers need a minute for the monolithic statement):
+                # on this path the parallel alternative is not taken, and s2 is the discriminant
+                C_, E_ = hv.arg(0), hv.arg(2)
+                s2m = E_.arg(1) if z3.is_rational_value(E_.arg(0)) else E_.arg(0)
+                zero_side = E_.arg(0) if z3.is_rational_value(E_.arg(0)) else E_.arg(1)
+                nonneg = (E_.decl().kind() == z3.Z3_OP_LE) == z3.is_rational_value(E_.arg(0))
+                chk.decided(f'{pre}/crossing:hit-test-has-the-form-s2>=0[path{i}]', nonneg and zero_side.as_fraction() == 0, detail=str(E_)[:120])
+                chk.prove(f'{pre}/crossing:parallel-alternative-not-taken[path{i}]', list(p.pc), z3.Not(C_))
+                chk.prove(f'{pre}/crossing:hit-iff-discriminant>=0[path{i}]', list(base), s2m == disc, timeout=60)
+            else:
+                chk.prove(f'{pre}/crossing:hit-iff-discriminant>=0[path{i}]', hy + [q > 0], hit.val == (disc >= 0), timeout=120)
             chk.prove(f'{pre}/crossing:left==(m-s)/q[path{i}]', hy + [q > 0, disc >= 0], left.val == (m - s) / q, timeout=60)
             chk.prove(f'{pre}/crossing:right==(m+s)/q[path{i}]', hy + [q > 0, disc >= 0], right.val == (m + s) / q, timeout=60)
             argd = q * rr * rr - dotz(B, nxa) * dotz(B, nxa)   # == disc by ghost:discriminant (proved above)
@@ -840,6 +880,85 @@ def _reference_transmission(base, ax, r, h, beam, det, mu, n=(16, 20, 16)):
     return np.array(out)
 
 
+def _exact_ray_length(p, d, base, ax, r, h):
+    """independent scalar reference: directions within 1e-12 of the axis / of the cap planes are taken as parallel to them"""
+    import numpy as np
+    q = p - base
+    qa, da = q @ ax, d @ ax
+    qp, dp = q - qa * ax, d - da * ax
+    A, B, C = dp @ dp, 2 * (qp @ dp), qp @ qp - r * r
+    lo, hi = 0.0, np.inf
+    if A < 1e-24:
+        if C > 0:
+            return 0.0
+    else:
+        disc = B * B - 4 * A * C
+        if disc <= 0:
+            return 0.0
+        lo, hi = max(lo, (-B - np.sqrt(disc)) / (2 * A)), min(hi, (-B + np.sqrt(disc)) / (2 * A))
+    if abs(da) < 1e-12:
+        if not (0 <= qa <= h):
+            return 0.0
+    else:
+        t0, t1 = (0 - qa) / da, (h - qa) / da
+        lo, hi = max(lo, min(t0, t1)), min(hi, max(t0, t1))
+    return max(hi - lo, 0.0)
+
+
+def intersection_failures(n, seed, limit=3):
+    """[B] real Cylinder.beam_intersection against an independent closed form: generic rays, rays exactly parallel / antiparallel to
+    the axis, parallel to it up to rounding (the direction normalised separately, one or two units in the last place off), and
+    perpendicular to it; starts inside and outside; axes along the coordinate axes and anywhere.  Ill-conditioned cases (answer
+    changes by more than 1e-4 when radius or height change by 1e-6) are skipped."""
+    import numpy as np
+    import scipp as sc
+    from vf.realrun import real_module
+    cylm = real_module('absorption.cylinder')
+    rng = np.random.default_rng(seed)
+    fails = []
+    kinds = ['generic', 'parallel-exact', 'parallel-to-rounding', 'perpendicular', 'generic', 'antiparallel-exact', 'parallel-to-rounding, start inside']
+    for i in range(n):
+        ax = rng.normal(size=3)
+        ax /= np.linalg.norm(ax)
+        if i % 4 == 0:
+            ax = np.eye(3)[rng.integers(3)] * rng.choice([-1.0, 1.0])
+        base = rng.normal(size=3)
+        r, h = rng.uniform(0.2, 2), rng.uniform(0.2, 3)
+        start = base + rng.normal(size=3) * 2
+        kind = kinds[i % 7]
+        d = rng.normal(size=3)
+        d /= np.linalg.norm(d)
+        if kind == 'parallel-exact':
+            d = ax.copy()
+        elif kind == 'antiparallel-exact':
+            d = -ax
+        elif kind.startswith('parallel-to-rounding'):
+            d = ax * (1 + rng.integers(-2, 3, 3) * 2.2e-16)
+            d = d / np.linalg.norm(d) if rng.random() < 0.5 else d
+            d = np.nextafter(d, rng.choice([-1.0, 1.0], 3)) if rng.random() < 0.5 else d
+            if kind.endswith('inside'):
+                start = base + ax * rng.uniform(-1, h + 1) + np.cross(ax, rng.normal(size=3)) * 0.1 * r
+        elif kind == 'perpendicular':
+            d = np.cross(ax, rng.normal(size=3))
+            d /= np.linalg.norm(d)
+        c = cylm.Cylinder(symmetry_line=sc.vector(ax), center_of_base=sc.vector(base, unit='m'), radius=sc.scalar(r, unit='m'), height=sc.scalar(h, unit='m'))
+        desc = {'id': f'ray{i}', 'index': i, 'seed': seed, 'kind': kind, 'axis': ax.tolist(), 'base': base.tolist(), 'radius': r, 'height': h, 'start': start.tolist(), 'direction': d.tolist()}
+        try:
+            got = float(c.beam_intersection(sc.vector(start, unit='m'), sc.vector(d)).value)
+        except Exception as e:  # noqa: BLE001
+            fails.append({**desc, 'problem': f'beam_intersection raised {type(e).__name__}: {e}'[:300]})
+            continue
+        want = _exact_ray_length(start, d, base, ax, r, h)
+        cond = max(abs(_exact_ray_length(start, d, base, ax, r * (1 + s_), h * (1 + t_)) - want) for s_, t_ in ((1e-6, 0), (-1e-6, 0), (0, 1e-6), (0, -1e-6)))
+        if cond > 1e-4:
+            continue
+        if abs(got - want) > 1e-7 * max(1.0, want) + 10 * cond:
+            fails.append({**desc, 'problem': f'{kind} ray: path length {got!r} reported, {want!r} of the ray is inside the solid'})
+            if len(fails) >= limit:
+                break
+    return fails
+
+
 def _transmission_failures(n, seed, limit=3):
     import numpy as np
     import scipp as sc
@@ -852,6 +971,17 @@ def _transmission_failures(n, seed, limit=3):
     fails = []
 
     def tmap(c, mat, beam, wl, det, kind, unit='m'):
+        # every wavelength is also asked for on its own: what a wavelength gets does not depend on which others share the call
+        if wl.sizes['wavelength'] > 1 and kind == 'cheap':
+            whole = tmap1(c, mat, beam, wl, det, kind, unit)
+            for j in range(wl.sizes['wavelength']):
+                single = tmap1(c, mat, beam, wl['wavelength', j:j + 1], det, kind, unit)
+                if not np.allclose(single[:, 0], whole[:, j], rtol=1e-12, atol=0):
+                    raise AssertionError(f'wavelength {wl.values[j]} alone gives {single[:, 0][:2]}, together with the others {whole[:, j][:2]}')
+            return whole
+        return tmap1(c, mat, beam, wl, det, kind, unit)
+
+    def tmap1(c, mat, beam, wl, det, kind, unit='m'):
         t = basem.compute_transmission_map(c, mat, beam_direction=sc.vector(beam), wavelength=wl,
                                            detector_position=sc.vectors(dims=['detector'], values=det, unit='m').to(unit=unit), quadrature_kind=kind)
         v = t.data
@@ -861,7 +991,9 @@ def _transmission_failures(n, seed, limit=3):
         ax /= np.linalg.norm(ax)
         base = rng.normal(size=3) * 0.02
         r, h = 10 ** rng.uniform(-3, -2), 10 ** rng.uniform(-2.5, -1.5)
-        c = cylm.Cylinder(symmetry_line=sc.vector(ax), center_of_base=sc.vector(base, unit='m'), radius=sc.scalar(r, unit='m'), height=sc.scalar(h, unit='m'))
+        cu = ('m', 'cm', 'mm', 'angstrom')[i % 4]     # the unit the sample is described in (1/cm is the unit barn/angstrom^3 reduces to)
+        c = cylm.Cylinder(symmetry_line=sc.vector(ax), center_of_base=sc.vector(base, unit='m').to(unit=cu), radius=sc.scalar(r, unit='m').to(unit=cu),
+                          height=sc.scalar(h, unit='m').to(unit=cu))
         beam = rng.normal(size=3)
         beam /= np.linalg.norm(beam)
         det = rng.normal(size=(4, 3))
@@ -925,6 +1057,10 @@ def bounded_transmission(chk):
     f1 = _geometry_failures(n, 11 + chk.seed)
     chk.bounded_check('quadrature-geometry', 'real Cylinder.quadrature on random axes over the sphere (incl. +-z, nearly -z)', f'{n} cylinders x 3 kinds',
                       n, f1)
+    k = 3500 if chk.tier == 'quick' else 100000
+    f0 = intersection_failures(k, 21 + chk.seed)
+    chk.bounded_check('ray-lengths', 'real Cylinder.beam_intersection vs an independent closed form: generic, exactly (anti)parallel, parallel up to rounding, perpendicular rays; '
+                      'starts inside and outside; axis-aligned and general axes', f'{k} rays (ill-conditioned ones skipped)', k, f0)
     m = 12 if chk.tier == 'quick' else 200
     f2 = _transmission_failures(m, 5 + chk.seed)
     chk.bounded_check('transmission-map', 'real compute_transmission_map: T in (0,1], T==1 at mu=0, monotone, other-end description and rigid motion within 2%, '
@@ -942,7 +1078,15 @@ def replay(rec):
     if 'quadrature' in name or 'rotation' in name:
         fails = _geometry_failures(120, 11, limit=2)
         return {'reproduced': bool(fails), 'cases': fails[:2]}
-    return replay_intersection(rec)
+    f = rec.get('meta', {}).get('replay') or {}
+    if 'ray-lengths' in name and 'index' in f:
+        fails = intersection_failures(int(f['index']) + 1, int(f.get('seed', 21)), limit=10 ** 6)
+        hit = [x for x in fails if x['index'] == f['index']]
+        return {'reproduced': bool(hit), 'case': hit[:1]}
+    if any(t in name for t in ('beam_intersection', '_line_infinite_cylinder_intersection', '_line_slab_intersection', '_positive_interval_intersection')):
+        fails = intersection_failures(3500, 21, limit=2)
+        return {'reproduced': bool(fails), 'cases': fails[:2]}
+    return {'reproduced': False, 'note': 'no native replay for this clause'}
 
 
 def replay_intersection(rec):
